@@ -136,9 +136,50 @@ func genHistTag(r *hlib.Rand, pts []point) string {
 var limits = []uint32{0, 1, 2, 3, 5, 100, math.MaxUint32}
 var intervals = []int64{1e9, 1e9, 10e9, 100e6, 1500e6, 60e9, 1, 333333333}
 
+// genBigMeanValues: the `bigmean` class - values that are large relative to their spread
+// (|mean| / spread from 1e3 to 1e12: nanosecond durations around 1e9, timestamps around 1.7e12, ...),
+// integers and doubles, means of either sign.  Formulas that are algebraically equal to the two-pass
+// deviation but cancel (SUM x^2 - mean * SUM x) are only told apart on such inputs.
+func genBigMeanValues(r *hlib.Rand, n int) []float64 {
+	ratio := math.Pow(10, float64(r.Range(3, 12)))
+	integers := r.Bool()
+	var base float64
+	switch r.Intn(4) {
+	case 0:
+		base = hlib.Pick(r, []float64{1e9, 1.7e12, 1.7e9, 86400e3, 3.6e12, 1e6, 16777216, 4294967296})
+	default:
+		base = math.Pow(10, float64(r.Range(3, 15))) * (1 + r.Float()*8)
+	}
+	spread := base / ratio
+	if integers {
+		base = math.Floor(base)
+		if spread < 1 {
+			spread = float64(r.Range(1, 3))
+		}
+		spread = math.Floor(spread)
+	}
+	if r.Chance(1, 3) {
+		base = -base
+	}
+	vs := make([]float64, n)
+	for i := range vs {
+		if integers {
+			vs[i] = base + float64(r.Intn(int(math.Min(spread, 1e9))+1))
+		} else {
+			vs[i] = base + spread*r.Float()
+		}
+	}
+	return vs
+}
+
 func genCase(r *hlib.Rand, i int) input {
 	in := input{Exact: i%2 == 0}
 	n := genN(r)
+	var big []float64
+	if i%8 == 5 { // general regime (i is odd)
+		n = r.Range(2, 60)
+		big = genBigMeanValues(r, n)
+	}
 	// general regime: the datapoints of one series use at most three distinct sample rates (a client
 	// samples a metric at one rate); the exact rational sum of 1/rate then stays small in Coq
 	palette := make([]float64, []int{1, 1, 1, 2, 2, 3}[r.Intn(6)])
@@ -154,6 +195,9 @@ func genCase(r *hlib.Rand, i int) input {
 			v, rate = genExactValue(r), hlib.Pick(r, exactRates)
 		} else {
 			v, rate = genGeneralValue(r), hlib.Pick(r, palette)
+		}
+		if big != nil {
+			v = big[j]
 		}
 		if j > 0 && r.Chance(1, 5) { // duplicates
 			v = math.Float64frombits(in.Points[r.Intn(j)].V)
@@ -176,7 +220,7 @@ func genCase(r *hlib.Rand, i int) input {
 	if r.Chance(1, 4) {
 		in.Tags = append(in.Tags, hlib.Pick(r, []string{"env:prod", "a:b", "gsd_histogra:1_2", "zz:gsd_histogram:1", "host:h1"}))
 	}
-	if r.Chance(3, 10) {
+	if big == nil && r.Chance(3, 10) {
 		shape = "hist"
 		in.Tags = append(in.Tags, genHistTag(r, in.Points))
 		if r.Chance(1, 6) { // a second histogram tag: findTag takes the first in the timer's tag order
@@ -205,6 +249,9 @@ func genCase(r *hlib.Rand, i int) input {
 		sz = "n<=6"
 	}
 	in.Class = reg + "/" + shape + "/" + sz
+	if big != nil {
+		in.Class = "bigmean/" + shape + "/" + sz
+	}
 	if in.Lexed = r.Chance(1, 3); in.Lexed {
 		in.Class += "/lexed"
 	}
